@@ -204,9 +204,19 @@ def abort_flow(rep: Report, r1: str, r2: str, r3: str, prog: Program) -> None:
         raise AnalysisError(f"abort flow: only {n_abort} aborting exits found")
 
 
+class WideCancelClient(CancelClient):
+    """thorough tier: a cancellation-type exception may be raised by *any* user callback
+    (KeyboardInterrupt is delivered wherever the interpreter happens to be)"""
+
+    name = "cancellation-pass-through-wide"
+    fault = {"*": CANCEL_KINDS, "operation": CANCEL_KINDS}
+
+
 def cancellation_and_timeout(rep: Report, prog: Program) -> None:
     rep.rule("R13.4", "CancelledError / KeyboardInterrupt / SystemExit raised by the operation, a sleep, a hook or a suspension point reach the runner's exit with the same kind and without any intervening callback, failure handling or new attempt")
-    res = run_runners(prog, lambda: CancelClient(prog))
+    wide = rep.tier == "thorough"
+    res = run_runners(prog, (lambda: WideCancelClient(prog)) if wide else (lambda: CancelClient(prog)))
+    rep.extra["R13.4_fault_model"] = "every user callback (classifier, strategy, attempt hooks, abort_if, sleep handler, hooks, sleeper, operation) and every suspension point" if wide else "operation, sleeper, before_sleep, on_metric, on_log and every suspension point"
     n_cancel = 0
     for name, (interp, exits, client) in res.items():
         q = RUNNERS[name]
